@@ -290,9 +290,10 @@ class BGP(protocol.Protocol):
         if result['nlri'] or result['withdraw']:
             afi_safi = 'ipv4'
         elif result['attr'].get(14):
-            afi_safi = bgp_cons.AFI_SAFI_DICT[result['attr'][14]['afi_safi']]
+            # (an address family without a name here: the message is still an UPDATE that arrived)
+            afi_safi = bgp_cons.AFI_SAFI_DICT.get(tuple(result['attr'][14]['afi_safi']))
         elif result['attr'].get(15):
-            afi_safi = bgp_cons.AFI_SAFI_DICT[result['attr'][15]['afi_safi']]
+            afi_safi = bgp_cons.AFI_SAFI_DICT.get(tuple(result['attr'][15]['afi_safi']))
 
         msg = {
             'attr': result['attr'],
